@@ -400,4 +400,249 @@ example :
     docInputs d = true := by
   decide
 
+/-! ## the way back of form parameters (9a423cc, ddd71cc) -/
+
+theorem filterMap_some_fun {α β : Type} (f : α → β) (l : List α) : l.filterMap (fun x => some (f x)) = l.map f := by
+  induction l with
+  | nil => rfl
+  | cons a r ih => simp [ih]
+
+/-- FromV3RequestBodyFormData as executed agrees with `fromV3FormProp` on a converted form field whose items are
+    not binary strings -/
+theorem fromV3FormPropO_eq {V : Type} (R : List String) (p : Param2 V) (hnb : p.items.all noBinary2 = true) :
+    fromV3FormPropO [] R p.name (clearReq (toV3FormProp p)) = fromV3FormProp R p.name (clearReq (toV3FormProp p)) := by
+  unfold toV3FormProp
+  cases hit : p.items with
+  | none => simp [clearReq, fromV3FormPropO, fromV3FormProp, kidItems]
+  | some s =>
+    simp only [hit, Option.all_some] at hnb
+    simp [clearReq, fromV3FormPropO, fromV3FormProp, kidItems, fromV3SO_eq [] (toV3S s) (noBinary3_toV3S s hnb)]
+
+/-- **the form fields of a converted operation come back as the form parameters** — each with its name,
+    requiredness (read back from the object schema), type / format and constraints -/
+theorem formBody_back {V : Type} (env : Env3 V) (cs : List String) (fps : List (Param2 V)) (sh : Bool) (nm : String)
+    (hn : nodupKeys (fps.map (fun p => (p.name, toV3FormProp p))) = true)
+    (hl : ∀ p ∈ fps, p.loc = "formData") (hi3 : ∀ p ∈ fps, itemsOK3 p.items = true)
+    (hib : ∀ p ∈ fps, itemsOKBack p.items = true) (hnb : ∀ p ∈ fps, p.items.all noBinary2 = true)
+    (hf : ∀ p ∈ fps, formFmtOK p = true) (hm : cs.any isFormMime = true) :
+    (fromV3Body [] sh nm (.val (formBody env cs (formMap (fps.map (fun p => (p.name, toV3FormProp p))))))).map inputA2 =
+    fps.map (fun p => inputA2 (.val p)) := by
+  obtain ⟨hmi, hsc, hnd3⟩ := formBody_shape env cs fps hn
+  have hne : cs.isEmpty = false := by
+    cases cs with
+    | nil => simp at hm
+    | cons _ _ => rfl
+  simp only [fromV3Body, hmi, hsc, hne, Bool.false_eq_true, if_false, hm, if_true, List.filterMap_map, Function.comp_def]
+  rw [filterMap_some_fun, List.map_map]
+  apply List.map_congr_left
+  intro p hp
+  have hreq : propRequired p.name (toV3FormProp p) = p.required := (toV3Form_preserves p (hi3 p hp)).2
+  have hc := required_names (fps.map (fun p => (p.name, toV3FormProp p, propRequired p.name (toV3FormProp p)))) hnd3
+    p.name (toV3FormProp p) (propRequired p.name (toV3FormProp p)) (List.mem_map.mpr ⟨p, hp, rfl⟩)
+  simp only [List.map_map, Function.comp_def] at hc
+  simp only [Function.comp_apply, fromV3FormPropO_eq _ p (hnb p hp)]
+  exact roundtripForm _ p (hl p hp) (by rw [hc, hreq]) (hib p hp) (hf p hp)
+
+theorem formVals_cons_back {V : Type} (cs : List String) (q : PRef2 V) (rest : List (PRef2 V))
+    (h : inputOKBack cs q = true) : formVals (q :: rest) = formVals rest := by
+  cases q with
+  | ref _ _ => rfl
+  | val p =>
+    have : p.loc ≠ "formData" := by
+      simp only [inputOKBack, Bool.or_eq_true] at h
+      rcases h with h | h
+      · simp only [paramSimpleBack, Bool.and_eq_true, bne_iff_ne, ne_eq] at h; exact h.1.1.2
+      · simp only [bodyOKBack, Bool.and_eq_true, beq_iff_eq] at h
+        rw [h.1.1]; decide
+    simp [formVals, this]
+
+/-- the parameters, the request body and the form fields of a converted parameter list come back as the inputs of
+    the list -/
+theorem inputs_split3_back {V : Type} (cbs : List (String × BRef3 V)) (bks : List String)
+    (hcb : ∀ n, (alookup n cbs).isSome = bks.contains n) (cs : List String) (l : List (PRef2 V))
+    (h : l.all (inputOKFBack cs) = true) :
+    (∃ ps2, (splitP3 (l.map (toV3P { cbodies := cbs, cschemas := [] } cs))).1.mapM (fromV3PRefO []) = some ps2 ∧
+      (ps2.map inputA2 ++
+        ((splitP3 (l.map (toV3P { cbodies := cbs, cschemas := [] } cs))).2.1.flatMap (fromV3Body [] false "body")).map inputA2 ++
+        (formVals l).map (fun p => inputA2 (.val p))).Perm (l.map inputA2)) ∧
+    (∀ p ∈ formVals l, itemsOKBack p.items = true ∧ p.items.all noBinary2 = true ∧ formFmtOK p = true) := by
+  induction l with
+  | nil => exact ⟨⟨[], rfl, by simp [splitP3, formVals]⟩, by simp [formVals]⟩
+  | cons q rest ih =>
+    simp only [List.all_cons, Bool.and_eq_true] at h
+    obtain ⟨⟨ps2, i1, i2⟩, i4⟩ := ih h.2
+    by_cases hq : inputOKBack cs q = true
+    · rw [formVals_cons_back cs q rest hq]
+      refine ⟨?_, i4⟩
+      rcases toV3P_input_back cbs bks hcb cs q hq with ⟨x, q2, hx, hq2, hA⟩ | ⟨b, hb, hA⟩
+      · refine ⟨q2 :: ps2, ?_, ?_⟩
+        · simp [hx, splitP3, List.mapM_cons, hq2, i1]
+        · simp only [List.map_cons, hx, splitP3, List.cons_append, hA]
+          exact List.Perm.cons _ i2
+      · refine ⟨ps2, ?_, ?_⟩
+        · simp [hb, splitP3, i1]
+        · simp only [List.map_cons, hb, splitP3, List.flatMap_cons, List.map_append, hA, List.append_assoc,
+            List.singleton_append]
+          have i2' := i2
+          simp only [List.append_assoc] at i2'
+          exact (List.perm_middle).trans (List.Perm.cons _ i2')
+    · have hf : formOKBack q = true := by
+        have := h.1
+        simp only [inputOKFBack, Bool.or_eq_true] at this
+        rcases this with h1 | h1
+        · exact absurd h1 hq
+        · exact h1
+      cases q with
+      | ref _ _ => simp [formOKBack] at hf
+      | val p =>
+        simp only [formOKBack, Bool.and_eq_true, beq_iff_eq] at hf
+        have hx : toV3P ({ cbodies := cbs, cschemas := [] } : Env3 V) cs (.val p) = .form p.name (toV3FormProp p) := by
+          simp [toV3P, hf.1.1.1]
+        constructor
+        · refine ⟨ps2, ?_, ?_⟩
+          · simp [hx, splitP3, i1]
+          · simp only [List.map_cons, hx, splitP3, formVals, hf.1.1.1, if_true]
+            exact (List.perm_middle).trans (List.Perm.cons _ i2)
+        · intro p' hp'
+          simp only [formVals, hf.1.1.1, if_true, List.mem_cons] at hp'
+          rcases hp' with rfl | hp'
+          · exact ⟨hf.1.1.2, hf.1.2, hf.2⟩
+          · exact i4 p' hp'
+
+/-- **every operation with a body parameter or form parameters comes back saying the same** -/
+theorem op_inputs_roundtrip {V : Type} (cbs : List (String × BRef3 V)) (bks : List String)
+    (hcb : ∀ n, (alookup n cbs).isSome = bks.contains n) (dc : List String) (path : String) (o : Op2 V)
+    (h3 : opInputsOK bks dc o = true) (h : opInputsBack dc o = true) :
+    ∃ o3, toV3Op { cbodies := cbs, cschemas := [] } dc o = .ok o3 ∧ ∃ o2, fromV3Op [] o3 = some o2 ∧
+      OpA.sim (opA2 path o2) (opA2 path o) := by
+  simp only [opInputsOK, Bool.and_eq_true, Bool.or_eq_true, decide_eq_true_eq] at h3
+  obtain ⟨⟨hin, hshape⟩, _⟩ := h3
+  simp only [opInputsBack, Bool.and_eq_true] at h
+  obtain ⟨hinb, hresp⟩ := h
+  obtain ⟨s1, s2, _, s4⟩ := inputs_split3 cbs bks hcb (effConsumes dc o) o.params hin
+  obtain ⟨⟨ps2, b1, b2⟩, b4⟩ := inputs_split3_back cbs bks hcb (effConsumes dc o) o.params hinb
+  obtain ⟨rs, hr1, hr2⟩ := responses_roundtrip o.produces o.responses hresp
+  have hform := formBody_back ({ cbodies := cbs, cschemas := [] } : Env3 V) (effConsumes dc o) (formVals o.params) false "body"
+  unfold toV3Op
+  simp only [effConsumes] at s1 s2 s4 b1 b2 hshape hform ⊢
+  generalize hsp : splitP3 (o.params.map (toV3P { cbodies := cbs, cschemas := [] } (if o.consumes.isEmpty then dc else o.consumes))) = sp at s1 s2 b1 b2
+  obtain ⟨ps, bodies, forms⟩ := sp
+  simp only at s1 s2 b1 b2 ⊢
+  subst s1
+  rcases hshape with ⟨hnf, hone⟩ | ⟨⟨hnb, hnd⟩, hmime⟩
+  · have hfv : formVals o.params = [] := by simpa using hnf
+    simp only [hfv, List.map_nil, List.append_nil] at b2 ⊢
+    have hlen : bodies.length ≤ 1 := by omega
+    cases bodies with
+    | nil =>
+      refine ⟨_, rfl, ?_⟩
+      simp only [fromV3Op, List.isEmpty_nil, if_true, b1, hr1]
+      refine ⟨_, rfl, rfl, rfl, rfl, ?_, ?_, ?_, rfl⟩
+      · simpa [opA2] using b2
+      · simp [opA2, hr2]
+      · simp [opA2, meta_roundtrip]
+    | cons b rest =>
+      cases rest with
+      | cons _ _ => simp at hlen
+      | nil =>
+        refine ⟨_, rfl, ?_⟩
+        simp only [fromV3Op, b1, hr1]
+        refine ⟨_, rfl, rfl, rfl, rfl, ?_, ?_, ?_, rfl⟩
+        · simpa [opA2] using b2
+        · simp [opA2, hr2]
+        · simp [opA2, meta_roundtrip]
+  · have hb0 : bodies = [] := by
+      have : (o.params.filter (isBodyIn bks)) = [] := by simpa using hnb
+      rw [this] at s2
+      simpa using s2
+    subst hb0
+    cases hfv : formVals o.params with
+    | nil =>
+      simp only [hfv, List.map_nil, List.append_nil, List.flatMap_nil] at b2 ⊢
+      refine ⟨_, rfl, ?_⟩
+      simp only [fromV3Op, List.isEmpty_nil, if_true, b1, hr1]
+      refine ⟨_, rfl, rfl, rfl, rfl, ?_, ?_, ?_, rfl⟩
+      · simpa [opA2] using b2
+      · simp [opA2, hr2]
+      · simp [opA2, meta_roundtrip]
+    | cons f fs =>
+      have hfi := hform hnd (fun p hp => (s4 p hp).1) (fun p hp => (s4 p hp).2) (fun p hp => (b4 p hp).1)
+        (fun p hp => (b4 p hp).2.1) (fun p hp => (b4 p hp).2.2) hmime
+      rw [hfv] at hfi
+      simp only [hfv, List.flatMap_nil, List.map_nil, List.append_nil] at b2 ⊢
+      refine ⟨_, rfl, ?_⟩
+      simp only [fromV3Op, b1, hr1]
+      refine ⟨_, rfl, rfl, rfl, rfl, ?_, ?_, ?_, rfl⟩
+      · show (List.map inputA2 (ps2 ++ fromV3Body [] false "body" _)).Perm _
+        rw [List.map_append, hfi]
+        simpa [opA2] using b2
+      · simp [opA2, hr2]
+      · simp [opA2, meta_roundtrip]
+
+theorem path_inputs_roundtrip {V : Type} (cbs : List (String × BRef3 V)) (bks : List String)
+    (hcb : ∀ n, (alookup n cbs).isSome = bks.contains n) (dc : List String) (p : Path2 V)
+    (h3 : pathInputsOK bks dc p = true) (h : pathInputsBack bks dc p = true) :
+    ∃ p3, toV3Path { cbodies := cbs, cschemas := [] } dc p = .ok p3 ∧ ∃ p2, fromV3Path [] p3 = some p2 ∧
+      PathRelBack p2 p := by
+  simp only [pathInputsOK, Bool.and_eq_true] at h3
+  simp only [pathInputsBack, Bool.and_eq_true] at h
+  obtain ⟨ops3, ops2, ho1, ho2, ho3⟩ := mapRes_mapM_rel (R := fun o2 o => OpA.sim (opA2 p.path o2) (opA2 p.path o))
+    (toV3Op { cbodies := cbs, cschemas := [] } dc) (fromV3Op []) p.ops
+    (fun o ho => op_inputs_roundtrip cbs bks hcb dc p.path o (List.all_eq_true.mp h3.2 o ho) (List.all_eq_true.mp h.2 o ho))
+  have hp : mapRes (pathParam3 { cbodies := cbs, cschemas := [] } dc) p.params = .ok (p.params.map toV3PS) :=
+    mapRes_ok _ _ _ (fun q hq => pathParam_body cbs bks hcb dc q (List.all_eq_true.mp h3.1 q hq))
+  have hsb : p.params.all paramSimpleBack = true := by
+    apply List.all_eq_true.mpr
+    intro q hq
+    have := List.all_eq_true.mp h.1 q hq
+    simp only [pathParamBack, Bool.and_eq_true] at this
+    exact this.1
+  obtain ⟨ps2, hq1, hq2⟩ := params_roundtrip p.params hsb
+  refine ⟨{ path := p.path, params := p.params.map toV3PS, ops := ops3 }, by simp [toV3Path, ho1, hp],
+    { path := p.path, params := ps2, ops := ops2 }, by simp [fromV3Path, hq1, ho2], rfl, hq2, ?_⟩
+  exact rel2_map (opA2 p.path) (opA2 p.path) (fun _ _ hr => hr) ho3
+
+/-- **Document level, round trip, with body and form parameters** (outside every open finding class): as
+    `api2_roundtrip_body`, and the inline formData parameters of an operation come back — from the properties of the
+    request body's object schema — with their names, requiredness, types / formats and constraints. -/
+theorem api2_roundtrip_inputs {V : Type} (d : Doc2 V) (h : docInputsBack d = true) :
+    ∃ d3 d2, toV3Raw d = .ok d3 ∧ fromV3 d3 = some d2 ∧
+      rel2 OpA.sim (api2 d2).ops (api2 d).ops ∧ (api2 d2).pathParams = (api2 d).pathParams ∧
+      (api2 d2).shared.Perm (api2 d).shared ∧ (api2 d2).sharedResponses = (api2 d).sharedResponses ∧
+      (api2 d2).defs = (api2 d).defs ∧ (api2 d2).security = (api2 d).security ∧
+      (api2 d2).securityReq = (api2 d).securityReq ∧
+      (∀ x, x ∈ (api2 d2).servers ↔ x ∈ (api2 d).servers) := by
+  simp only [docInputsBack, Bool.and_eq_true, bne_iff_ne, ne_eq] at h
+  obtain ⟨⟨⟨⟨⟨⟨hfrag, hparamsB⟩, hpnodup⟩, hpathsB⟩, hrespsB⟩, hdefsB⟩, hhost, hschemes⟩ := h
+  simp only [docInputs, Bool.and_eq_true] at hfrag
+  obtain ⟨⟨⟨⟨⟨⟨hparams, hpaths⟩, _⟩, hnodup⟩, _⟩, hsecs⟩, _⟩ := hfrag
+  refine api2_roundtrip_gen d hparams hparamsB hpnodup hrespsB hnodup hdefsB hsecs hhost hschemes ?_
+  intro cbs hcb p hp
+  exact path_inputs_roundtrip cbs (bodyKeys d.params) hcb d.consumes p
+    (List.all_eq_true.mp hpaths p hp) (List.all_eq_true.mp hpathsB p hp)
+
+/-- non-vacuity of `api2_roundtrip_inputs`: a required file upload, a required constrained array field, an optional
+    field with a format, next to a query parameter; another operation takes a body -/
+example :
+    let q : Param2 Nat := { name := "q", loc := "query", required := false, cons := { ty := some "integer" }, items := none, schema := none }
+    let up : Param2 Nat := { name := "up", loc := "formData", required := true, cons := { ty := some "file" }, items := none, schema := none }
+    let tags : Param2 Nat := { name := "tags", loc := "formData", required := true,
+                               cons := { ty := some "array", sc := [("maxItems", 3)] },
+                               items := some (.node { ty := some "string", sc := [("minLength", 1)] } []), schema := none }
+    let note : Param2 Nat := { name := "note", loc := "formData", required := false,
+                               cons := { ty := some "string", fmt := some "date" }, items := none, schema := none }
+    let bd : Param2 Nat := { name := "payload", loc := "body", required := true, cons := {}, items := none,
+                             schema := some (.node { ty := some "object" } []) }
+    let ok : RRef2 Nat := .val { desc := "ok", headers := [], schema := some (.node { ty := some "string" } []) }
+    let d : Doc2 Nat := {
+      loc := { host := "h", basePath := "", schemes := ["wss", "https"] }, consumes := [], produces := ["application/xml"],
+      params := [], responses := [], defs := [], secs := [],
+      paths := [{ path := "/up", params := [],
+                  ops := [{ method := "post", opId := "a", consumes := ["multipart/form-data"], produces := [],
+                            params := [.val up, .val q, .val tags, .val note], responses := [("200", ok)] },
+                          { method := "put", opId := "b", consumes := [], produces := ["text/plain"],
+                            params := [.val bd], responses := [("200", ok)] }] }] }
+    docInputsBack d = true := by
+  decide
+
 end KinModel.Conv
